@@ -45,7 +45,7 @@ func initWhitelisted(pp string) bool {
 		return !strings.HasSuffix(pp, "/internal/xlog") && !strings.HasSuffix(pp, "/internal/randtxt")
 	}
 	switch pp {
-	case "errors", "io", "bytes", "bufio", "io/fs", "internal/oserror", "os", "path/filepath", "strings", "hash", "syscall", "internal/poll", "unicode/utf8":
+	case "errors", "io", "bytes", "bufio", "io/fs", "internal/oserror", "os", "path/filepath", "strings", "hash", "syscall", "internal/poll", "unicode/utf8", "strconv":
 		return true
 	}
 	return false
@@ -425,6 +425,9 @@ func init() {
 			return newErr(p, "fmt.Errorf: "+p.argStr(args[0])), true
 		},
 		"fmt.Sprintf": func(p *Path, fn *ssa.Function, args []Value) (Value, bool) {
+			if s, ok := p.miniSprintf(args); ok {
+				return Str{S: s}, true
+			}
 			return Str{S: "<" + p.argStr(args[0]) + ">"}, true
 		},
 		"fmt.Sprint":   func(p *Path, fn *ssa.Function, args []Value) (Value, bool) { return Str{S: "<sprint>"}, true },
@@ -722,4 +725,107 @@ func (p *Path) appendBuiltinRaw(s, e Slice, stride int) Value {
 		o.set(ln*stride+i, v)
 	}
 	return Slice{P: Ptr{Obj: o.ID}, Len: ts.Const(uint64(ln+n), 64), Cap: ts.Const(uint64(newCap), 64)}
+}
+
+// miniSprintf formats concrete integer, string, bool and rune arguments for
+// the verbs %d %s %q %c %t %v %x; anything else (or a symbolic argument)
+// makes the caller fall back to an opaque string.
+func (p *Path) miniSprintf(args []Value) (string, bool) {
+	fs, ok := args[0].(Str)
+	if !ok || fs.IsObj {
+		return "", false
+	}
+	var vals []Value
+	if len(args) > 1 {
+		sl, ok := args[1].(Slice)
+		if !ok {
+			return "", false
+		}
+		if sl.P.Obj != 0 {
+			if !sl.Len.IsConst() {
+				return "", false
+			}
+			for i := 0; i < int(sl.Len.Val); i++ {
+				vals = append(vals, p.loadCell(sl.P, i))
+			}
+		}
+	}
+	var out strings.Builder
+	f := fs.S
+	k := 0
+	for i := 0; i < len(f); i++ {
+		if f[i] != '%' {
+			out.WriteByte(f[i])
+			continue
+		}
+		i++
+		if i >= len(f) {
+			return "", false
+		}
+		if f[i] == '%' {
+			out.WriteByte('%')
+			continue
+		}
+		if k >= len(vals) {
+			return "", false
+		}
+		ifc, ok := vals[k].(Iface)
+		k++
+		if !ok {
+			return "", false
+		}
+		switch f[i] {
+		case 'd', 'x', 'c', 't', 'v', 's', 'q':
+		default:
+			return "", false
+		}
+		switch v := ifc.V.(type) {
+		case *Term:
+			if !v.IsConst() {
+				return "", false
+			}
+			_, signed, _ := intType(ifc.T)
+			x := v.Val
+			var n int64 = int64(x)
+			if signed && v.W < 64 && x&(1<<uint(v.W-1)) != 0 {
+				n = int64(x) - (1 << uint(v.W))
+			}
+			switch f[i] {
+			case 'd', 'v':
+				if v.W == 1 && f[i] == 'v' {
+					fmt.Fprintf(&out, "%t", x == 1)
+				} else if signed {
+					fmt.Fprintf(&out, "%d", n)
+				} else {
+					fmt.Fprintf(&out, "%d", x)
+				}
+			case 'x':
+				fmt.Fprintf(&out, "%x", x)
+			case 'c':
+				out.WriteRune(rune(x))
+			case 't':
+				fmt.Fprintf(&out, "%t", x == 1)
+			default:
+				return "", false
+			}
+		case Str:
+			if v.IsObj {
+				return "", false
+			}
+			switch f[i] {
+			case 's', 'v':
+				out.WriteString(v.S)
+			case 'q':
+				fmt.Fprintf(&out, "%q", v.S)
+			default:
+				return "", false
+			}
+		default:
+			return "", false
+		}
+	}
+	if k != len(vals) {
+		return "", false
+	}
+	return out.String(), true
 }
